@@ -350,9 +350,18 @@ def unmodelled_cases(rng, quick):
         b = {"shape": [n_, n_], "coords": [list(p) for p in bb], "data": [int(rng.integers(1, 5)) for _ in bb], "fill": 0}
         cs.append((f"product:coo@coo:{n_}", {"op": "product", "kind": "matmul", "a": a, "b": b}, ref_matmul(a, b), 90, None, None))
         cs.append((f"product:gcxs@gcxs:{n_}", {"op": "product", "kind": "matmul", "a": a, "b": b, "format_a": G0, "format_b": G0}, ref_matmul(a, b), 90, None, None))
-    cs.append(("product:coo@coo:huge", {"op": "product", "kind": "matmul", "a": x2, "b": b2}, ref_matmul(x2, b2), 8 if quick else 30, "F-c16-dot-rows-times-cols", size2))
+    # the huge ones run in a lane of their own (they are expected to miss the deadline); a small product of the same kind goes
+    # first in that lane so that the deadline measures the kernel, not its JIT compilation
+    sa = rand_coo(rng, (50, 50), 30)
+    sb = rand_coo(rng, (50, 50), 30)
+    cs.append(("product:coo@coo:jit", {"op": "product", "kind": "matmul", "a": sa, "b": sb, "slow_lane": True}, ref_matmul(sa, sb), 150, None, None))
+    cs.append(("product:coo@coo:huge", {"op": "product", "kind": "matmul", "a": x2, "b": b2, "slow_lane": True}, ref_matmul(x2, b2), 8 if quick else 30,
+               "F-c16-dot-rows-times-cols", size2))
     if not quick:
-        cs.append(("product:gcxs@gcxs:huge", {"op": "product", "kind": "matmul", "a": x2, "b": b2, "format_a": G0, "format_b": G0}, ref_matmul(x2, b2), 30, "F-c16-dot-rows-times-cols", size2))
+        cs.append(("product:gcxs@gcxs:jit", {"op": "product", "kind": "matmul", "a": sa, "b": sb, "format_a": G0, "format_b": G0, "slow_lane": True},
+                   ref_matmul(sa, sb), 150, None, None))
+        cs.append(("product:gcxs@gcxs:huge", {"op": "product", "kind": "matmul", "a": x2, "b": b2, "format_a": G0, "format_b": G0, "slow_lane": True},
+                   ref_matmul(x2, b2), 30, "F-c16-dot-rows-times-cols", size2))
     x3 = rand_coo(rng, S3, 400)
     s3 = cells(x3) + 3 * BIG
     # GCXS with several compressed axes: indptr of prod(extents)+1 cells
@@ -454,7 +463,7 @@ def run(ctx):
     where_x = []
     for fam, w, ref, deadline, expect, size in extra:
         w = dict(w)
-        slow = expect == "F-c16-dot-rows-times-cols"
+        slow = bool(w.pop("slow_lane", False))
         if not slow:
             w["warm"] = True
         if ref is not None and (w.get("format") or w.get("format_a")):
